@@ -29,6 +29,7 @@ E2E_VERDICTS = {
     3: "e2e-wf-header-request-failed",
     4: "e2e-origin-saw-wrong-client-address",
     5: "e2e-malformed-header-request-served",
+    6: "e2e-malformed-header-connection-left-open",
 }
 
 
@@ -202,6 +203,8 @@ def run(ctx):
         raw = case_bytes(case)
         if kind in ("rcases", "vcases"):
             key = reader_key(v, raw)
+            if str(case.get("err", "")).startswith("PANIC"):
+                key = "readheader-panics"
             if case.get("kind") == "reader-history":
                 key += ":after-later-headers-were-read"
         elif kind == "ccases":
